@@ -223,21 +223,25 @@ Qed.
 
 (** how a table token [t] relates to the token [tok] actually in the text (followed by the start of an
     operand): it does not match, or it matches a proper prefix and leaves a character no operand starts with *)
+Definition after_opc : str -> Prop := after_op unop ptab is_sp is_idstart is_digit.
 Fixpoint pair_ok (t tok : str) : bool :=
   match t, tok with
   | [], [] => false
   | [], d :: _ => badc d
-  | c :: _, [] => negb (starterc c)
+  | c :: _, [] => negb (starterc c) && negb (is_sp c)
   | c :: t', d :: tok' => if Ascii.eqb c d then pair_ok t' tok' else true
   end.
-Lemma pair_ok_sound t : forall tok s, pair_ok t tok = true -> hd_is starterc s ->
+Lemma pair_ok_sound t : forall tok s, pair_ok t tok = true -> after_opc s ->
   strip t (tok ++ s) = None \/ exists r, strip t (tok ++ s) = Some r /\ hd_is badc r.
 Proof.
   induction t as [|c t' IH]; intros [|d tok'] s H Hs; cbn [pair_ok] in H.
   - discriminate.
   - right. exists ((d :: tok') ++ s)%list. split; [reflexivity|]. exists d, (tok' ++ s)%list. auto.
-  - destruct Hs as (x & r & -> & Hx). left. cbn [app strip]. destruct (Ascii.eqb_spec c x); [|reflexivity].
-    subst. rewrite Hx in H. discriminate.
+  - apply andb_prop in H. destruct H as (H1 & H2). apply negb_true_iff in H1. apply negb_true_iff in H2.
+    left. cbn [app]. destruct s as [|x r]; [reflexivity|]. cbn [strip].
+    destruct (Ascii.eqb_spec c x) as [<-|]; [|reflexivity]. exfalso.
+    unfold after_opc, after_op in Hs. cbn [Climb.skip_sp] in Hs. rewrite H2 in Hs. destruct Hs as (y & r' & [= <- <-] & Hy).
+    unfold starterc in H1. congruence.
   - cbn [app strip]. destruct (Ascii.eqb c d); [apply IH; assumption | left; reflexivity].
 Qed.
 
@@ -257,7 +261,7 @@ Proof.
 Qed.
 
 Lemma HIpos : forall o, exists pre post, itab = (pre ++ (lb o, tb o, o) :: post)%list /\
-  forall l t o', In (l, t, o') pre -> forall s, hd_is starterc s ->
+  forall l t o', In (l, t, o') pre -> forall s, after_opc s ->
     strip t (tb o ++ s) = None \/ exists r, strip t (tb o ++ s) = Some r /\ hd_is badc r.
 Proof.
   intros o. exists (fst (split_tok (tb o) itab)), (snd (split_tok (tb o) itab)).
@@ -265,7 +269,7 @@ Proof.
     repeat (destruct Hin as [Hin|Hin]; [injection Hin as <- <- <-; apply pair_ok_sound; [vm_compute; reflexivity | exact Hs]|]); destruct Hin.
 Qed.
 
-Lemma HIstop : forall o minp s l t o', lb o < minp -> hd_is starterc s -> In (l, t, o') itab -> minp <= l ->
+Lemma HIstop : forall o minp s l t o', lb o < minp -> after_opc s -> In (l, t, o') itab -> minp <= l ->
   strip t (tb o ++ s) = None \/ exists r, strip t (tb o ++ s) = Some r /\ hd_is badc r.
 Proof.
   intros o minp s l t o' Hlt Hs Hin Hle. unfold itab in Hin. cbn [In] in Hin.
@@ -340,3 +344,26 @@ Qed.
 Theorem display_roundtrip_ctx e rest : wfe e -> neutral_rest rest ->
   expr_rule (display_expr (conv e) ++ rest) = Some (conv e, rest).
 Proof. intros Hwf Hn. rewrite (display_is_render e 0). apply climb_roundtrip_ctx; [exact np_all_sound | exact Hwf | exact Hn]. Qed.
+
+(** ---------------- surface variation of expressions: blanks and redundant parentheses ---------------- *)
+Definition dcexpr := dexpr binop unop.
+Definition dwfe : nat -> dcexpr -> Prop := dwf binop unop is_sp wf_id wf_num lb lu.
+Definition drender_e : dcexpr -> str := drender binop unop show_N tb tu.
+Definition erase_e : dcexpr -> cexpr := erase binop unop.
+
+Theorem surface_roundtrip d : dwfe 0 d -> parse_expr (drender_e d) = Some (conv (erase_e d)).
+Proof.
+  intros Hwf. unfold parse_expr, expr_rule, climb_expr, expr_fuel, drender_e, erase_e.
+  rewrite (droundtrip_fuel binop unop itab ptab is_sp is_idch is_idstart is_digit id_parse num_parse show_N wf_id wf_num lb tb lu tu symc);
+    first [ reflexivity | exact Hsym | exact Hidstart | exact Hdigit | exact Hidch_sp | exact HLP | exact HRP | exact H_id_ok | exact H_id_fail
+          | exact H_id_hd | exact H_num_ok | exact H_num_fail | exact H_num_hd | exact HPsym | exact HIsym | exact HPpos | exact HIpos
+          | exact HIstop | exact H_id_len | exact H_num_len | exact Hwf ].
+Qed.
+Theorem surface_roundtrip_ctx d rest : dwfe 0 d -> neutral_rest rest -> expr_rule (drender_e d ++ rest) = Some (conv (erase_e d), rest).
+Proof.
+  intros Hwf Hn. unfold expr_rule, climb_expr, expr_fuel, drender_e, erase_e.
+  rewrite (droundtrip_ctx_fuel binop unop itab ptab is_sp is_idch is_idstart is_digit id_parse num_parse show_N wf_id wf_num lb tb lu tu symc);
+    first [ reflexivity | exact Hsym | exact Hidstart | exact Hdigit | exact Hidch_sp | exact HLP | exact HRP | exact H_id_ok | exact H_id_fail
+          | exact H_id_hd | exact H_num_ok | exact H_num_fail | exact H_num_hd | exact HPsym | exact HIsym | exact HPpos | exact HIpos
+          | exact HIstop | exact H_id_len | exact H_num_len | exact Hwf | exact Hn ].
+Qed.
